@@ -26,7 +26,7 @@ from common import REPO, CORPUS
 PROPERTY = "C06"
 RULE = ("schemas: gen/schema.py (sizes 1-3, + subscription root); documents valid by construction (operations, nested "
         "fragments, inline fragments, variables shared between operations through fragments, directives, input objects, "
-        "mergeable duplicate fields); each then gets every applicable one of 38 labelled single-rule violations (incl. variables INSIDE list literals, depth 1-2, below object fields) "
+        "mergeable duplicate fields); each then gets every applicable one of 39 labelled single-rule violations (incl. fragment cycles through the sub-selection of a field, variables INSIDE list literals, depth 1-2, below object fields) "
         "(26 rule visitors / 26 specification rules) and 8 metamorphic transformations; non-trivial = distinct "
         "(document text) that is either valid with >= 2 definitions or a fragment, or carries a violation")
 ASSUMPTIONS = [
@@ -90,6 +90,36 @@ def extract(ctx):
 # the real validator, with attribution to visitor instances
 # ---------------------------------------------------------------------------
 
+class WatchdogExpired(BaseException):
+    """validation of one generated document ran longer than WATCHDOG_S seconds (a loop that does not even recurse)"""
+
+
+WATCHDOG_S = 20
+
+
+class watchdog:
+    """wall-clock watchdog around ONE validation (unbounded recursion is caught by the interpreter's own limit and
+    reported as raise:RecursionError; this catches the non-recursive loop). Main thread only; no-op elsewhere."""
+
+    def __enter__(self):
+        import signal
+        import threading
+        self.on = threading.current_thread() is threading.main_thread() and hasattr(signal, "setitimer")
+        if self.on:
+            def expired(signum, frame):
+                raise WatchdogExpired()
+            self.old = signal.signal(signal.SIGALRM, expired)
+            signal.setitimer(signal.ITIMER_REAL, WATCHDOG_S)
+        return self
+
+    def __exit__(self, *exc):
+        if self.on:
+            import signal
+            signal.setitimer(signal.ITIMER_REAL, 0)
+            signal.signal(signal.SIGALRM, self.old)
+        return False
+
+
 def real_chain(schema, text, rules=None, parse_opts=None):
     """Rebuild the chain exactly as `default_validator` does and record which rule object holds each error.
     Returns {"outcome": "ok"|"errors"|"raise:<Class>", "by_rule": [(class name, #errors)] }."""
@@ -103,11 +133,14 @@ def real_chain(schema, text, rules=None, parse_opts=None):
     except Exception as e:  # generated text must parse
         return {"outcome": "noparse:" + type(e).__name__, "by_rule": []}
     try:
-        type_info = TypeInfoVisitor(schema)
-        visitors = [cls(schema, type_info) for cls in rules]
-        ChainedVisitor(type_info, *visitors).visit(document)
+        with watchdog():
+            type_info = TypeInfoVisitor(schema)
+            visitors = [cls(schema, type_info) for cls in rules]
+            ChainedVisitor(type_info, *visitors).visit(document)
     except RecursionError:
         return {"outcome": "raise:RecursionError", "by_rule": []}
+    except WatchdogExpired:
+        return {"outcome": "raise:WatchdogExpired", "by_rule": []}
     except Exception as e:
         return {"outcome": "raise:" + type(e).__name__, "by_rule": []}
     by = [(type(v).__name__, len(v.errors)) for v in visitors]
